@@ -250,7 +250,7 @@ func VH_C18_Select() {
 // token types (or none = every token), registered in one Build.  Every
 // recorder sees each non-EOF token of its own selection exactly once, in
 // stream order, whatever the other mappers select.
-var vhChainSelections = [][]string{nil, {"A"}, {"B"}, {"A", "B"}, {"C"}}
+var vhChainSelections = [][]string{nil, {"A"}, {"B"}, {"A", "B"}, {"C"}, {"A", "A"}, {"EOF"}, {"B", "EOF", "B"}}
 
 const vhChainTokens = 2 // @tier quick=2 thorough=3
 
